@@ -10,7 +10,7 @@ GROUPS = [
     Group(name="C16/macros_expand_params.collect", unity="C16/u_macros.cpp", entry="h_expand_collect", functions=[("macros_expand_params (argument collection)", M, "harness+loop-contracts, unbounded character stream")],
           loops="C16/expand.loops.json", expected_loops=2, unwind=3, checks=CH, timeout=600),
 ]
-GROUPS += [g for g in _c05.GROUPS if "Memory.write1" in g.name or "parse_align" in g.name]
+GROUPS += [g for g in _c05.GROUPS if "Memory.write1" in g.name or "Memory.write16" in g.name or "parse_align" in g.name]
 GROUPS += [g for g in _c04.GROUPS if "Var.divmod" == g.name.split("/")[1]]
 LEVEL = "proof"
 TRUSTED = ["the character reader is replaced by a stream contract returning an arbitrary byte or EOF per call (streams shorter than 2^28 characters)", "malloc succeeds; stack depth of the C recursion is not modelled"]
